@@ -88,6 +88,9 @@ Definition set_conns (b : backend) (s : status) (n : N) : backend :=
 Definition set_reqs (b : backend) (n : N) : backend :=
   mkB (b_id b) (b_addr b) (b_sticky b) (b_status b) (b_healthy b) (b_succ b) (b_fails b) (b_retry b)
       (b_conns b) n (b_failures b) (b_weight b) (b_backup b).
+Definition set_failures (b : backend) (n : N) : backend :=
+  mkB (b_id b) (b_addr b) (b_sticky b) (b_status b) (b_healthy b) (b_succ b) (b_fails b) (b_retry b)
+      (b_conns b) (b_reqs b) n (b_weight b) (b_backup b).
 Definition set_config (b : backend) (sticky : option N) (w : option Z) (backup : bool) : backend :=
   mkB (b_id b) (b_addr b) sticky (b_status b) (b_healthy b) (b_succ b) (b_fails b) (b_retry b)
       (b_conns b) (b_reqs b) (b_failures b) w backup.
@@ -132,6 +135,22 @@ Definition dec_connections (b : backend) : backend * option N :=
   | Closing =>
     let n := if 0 <? b_conns b then b_conns b - 1 else b_conns b in
     if n =? 0 then (set_conns b Closed n, None) else (set_conns b Closing n, Some n)
+  end.
+
+(** whether [mio::net::TcpStream::connect] answers [Ok] (incl. EINPROGRESS) for
+    the address: environment data; the driver's pool has one address (7, the
+    IPv4 broadcast address) for which the kernel refuses synchronously *)
+Definition connectable (a : N) : bool := negb (a =? 7).
+
+(** [Backend::try_connect]: 0 = Ok (one more active connection), 1 = refused
+    because the backend is not Normal, 2 = connect error (the retry policy
+    fails, [failures] advances); [w] is the window length the failure draws *)
+Definition try_connect (now w : N) (b : backend) : backend * N :=
+  match b_status b with
+  | Normal =>
+    if connectable (b_addr b) then (fst (inc_connections b), 0)
+    else (set_failures (set_retry b (retry_fail (b_retry b) now w)) (b_failures b + 1), 2)
+  | _ => (b, 1)
   end.
 
 (** [backend_weight]: default 100, clamped to at least 1 *)
@@ -449,6 +468,26 @@ Definition find_sticky (s : state) (c : nat) (sid : N) : option nat :=
   | None => None
   end.
 
+(** [BackendMap::backend_from_cluster_id]: select, then connect to the pick.
+    Result: new state, the pick, the code of [try_connect] (3 = nobody) *)
+Definition connect_handle (s : state) (h : nat) (w : N) : state * N :=
+  let '(b', code) := try_connect (s_now s) w (hget (s_heap s) h) in
+  (with_heap s (hset (s_heap s) h b'), code).
+
+Definition backend_from_cluster (s : state) (c : nat) (w : N) : state * option nat * N :=
+  match select s c None with
+  | (s1, POne (Some h)) => let '(s2, code) := connect_handle s1 h w in (s2, Some h, code)
+  | (s1, _) => (s1, None, 3)
+  end.
+
+(** [BackendMap::backend_from_sticky_session]: the sticky backend when it can
+    open (a failed connect to it is an error, not a fallback), else the policy *)
+Definition backend_from_sticky (s : state) (c : nat) (sid w : N) : state * option nat * N :=
+  match find_sticky s c sid with
+  | Some h => let '(s2, code) := connect_handle s h w in (s2, Some h, code)
+  | None => backend_from_cluster s c w
+  end.
+
 (** [find_backend]: the first backend at the address *)
 Definition find_backend (s : state) (c : nat) (addr : N) : option nat :=
   find (fun h => b_addr (hget (s_heap s) h) =? addr) (c_list (cget s c)).
@@ -513,7 +552,10 @@ Inductive op :=
 | ODec (h : nat)
 | OClose (c : nat) (a : N)
 | OReqs (h : nat) (n : N)
-| OSelect (c : nat) (key : option N).
+| OSelect (c : nat) (key : option N)
+| OConnect (h : nat) (w : N)
+| OSelectConn (c : nat) (w : N)
+| OStickyConn (c : nat) (sid w : N).
 
 Definition apply_op (s : state) (o : op) : state :=
   match o with
@@ -544,6 +586,9 @@ Definition apply_op (s : state) (o : op) : state :=
     end
   | OReqs h n => on_handle s h (fun b => set_reqs b n)
   | OSelect c key => fst (select s c key)
+  | OConnect h w => if (h <? length (s_heap s))%nat then fst (connect_handle s h w) else s
+  | OSelectConn c w => fst (fst (backend_from_cluster s c w))
+  | OStickyConn c sid w => fst (fst (backend_from_sticky s c sid w))
   end.
 
 Definition run_ops (s : state) (ops : list op) : state := fold_left apply_op ops s.
